@@ -61,6 +61,20 @@ pub fn name_json(n: &[u8]) -> Value {
         json!(format!("hex:{}", n.iter().map(|b| format!("{b:02x}")).collect::<String>()))
     }
 }
+/// A list of (u64, u64) records: written out when short, as length + digest of the little-endian bytes when long
+/// (the largest legal BATCH_FORGET carries 65789 records).
+pub fn pairs_json(rows: &[(u64, u64)]) -> Value {
+    if rows.len() <= 64 {
+        Value::Array(rows.iter().map(|(a, b)| json!([s64(*a), s64(*b)])).collect())
+    } else {
+        let mut bytes = Vec::with_capacity(rows.len() * 16);
+        for (a, b) in rows {
+            bytes.extend_from_slice(&a.to_le_bytes());
+            bytes.extend_from_slice(&b.to_le_bytes());
+        }
+        json!({"n": rows.len(), "sum": crate::wirecodec::fnv(&bytes)})
+    }
+}
 pub fn dur_json(d: &Duration) -> Value {
     json!({"s": d.as_secs().to_string(), "ns": d.subsec_nanos().to_string()})
 }
@@ -220,8 +234,7 @@ impl FileSystem for ScriptedFs {
         self.rec("forget", Some(ctx), json!({"inode": ino(inode), "count": s64(count)}), json!({"kind": "unit"}));
     }
     fn batch_forget(&self, ctx: &Context, requests: Vec<(u64, u64)>) {
-        let l: Vec<Value> = requests.iter().map(|(i, n)| json!([s64(*i), s64(*n)])).collect();
-        self.rec("batch_forget", Some(ctx), json!({"requests": l}), json!({"kind": "unit"}));
+        self.rec("batch_forget", Some(ctx), json!({"requests": pairs_json(&requests)}), json!({"kind": "unit"}));
     }
     fn getattr(&self, ctx: &Context, inode: u64, handle: Option<u64>) -> io::Result<(stat64, Duration)> {
         self.attr("getattr", ctx, json!({"inode": ino(inode), "handle": opt64(handle)}))
@@ -320,7 +333,33 @@ impl FileSystem for ScriptedFs {
             }
             Ret::Bytes(b) => {
                 let n = b.len().min(size as usize).min(w.available_bytes());
-                match w.write_all(&b[..n]) {
+                // produce the payload the way real filesystems do: partly with plain writes, partly zero-copy from a
+                // file in several chunks (which path is taken for which part is derived from the data itself)
+                let res = (|| -> io::Result<()> {
+                    let mode = b.first().copied().unwrap_or(0) % 3;
+                    if mode == 0 || n == 0 {
+                        return w.write_all(&b[..n]);
+                    }
+                    let fd = unsafe { libc::memfd_create(b"scripted-read\0".as_ptr() as *const libc::c_char, 0) };
+                    if fd < 0 {
+                        return w.write_all(&b[..n]);
+                    }
+                    let mut file = unsafe { <std::fs::File as std::os::unix::io::FromRawFd>::from_raw_fd(fd) };
+                    std::io::Write::write_all(&mut file, &b[..n])?;
+                    let cut1 = if mode == 1 { n } else { (b[n / 2] as usize * n / 256).max(1).min(n) };
+                    let mut off = 0usize;
+                    for end in [cut1 / 2, cut1] {
+                        while off < end {
+                            let k = w.write_from(&mut file, end - off, off as u64)?;
+                            if k == 0 {
+                                return Err(io::Error::from_raw_os_error(libc::EIO));
+                            }
+                            off += k;
+                        }
+                    }
+                    w.write_all(&b[off..n])
+                })();
+                match res {
                     Ok(()) => {
                         self.rec("read", Some(ctx), args, json!({"kind": "bytes", "data": pay(&b[..n])}));
                         Ok(n)
@@ -537,8 +576,8 @@ impl FileSystem for ScriptedFs {
         self.unit("setupmapping", ctx, json!({"inode": ino(inode), "handle": s64(handle), "foffset": s64(foffset), "len": s64(len), "flags": s64(flags), "moffset": s64(moffset)}))
     }
     fn removemapping(&self, ctx: &Context, _inode: u64, requests: Vec<RemovemappingOne>, _vu_req: &mut dyn FsCacheReqHandler) -> io::Result<()> {
-        let l: Vec<Value> = requests.iter().map(|r| json!([s64(r.moffset), s64(r.len)])).collect();
-        self.unit("removemapping", ctx, json!({"requests": l}))
+        let rows: Vec<(u64, u64)> = requests.iter().map(|r| (r.moffset, r.len)).collect();
+        self.unit("removemapping", ctx, json!({"requests": pairs_json(&rows)}))
     }
     fn access(&self, ctx: &Context, inode: u64, mask: u32) -> io::Result<()> {
         self.unit("access", ctx, json!({"inode": ino(inode), "mask": s64(mask as u64)}))
